@@ -167,7 +167,9 @@ static var Tuple_Iter_Next(var self, var curr) {
 
 static var Tuple_Iter_Last(var self) {
   struct Tuple* t = self;
-  return t->items[Tuple_Len(t)-1];
+  size_t nitems = Tuple_Len(t);
+  if (nitems is 0) { return Terminal; }
+  return t->items[nitems-1];
 }
 
 static var Tuple_Iter_Prev(var self, var curr) {
